@@ -118,7 +118,8 @@ func (runInfo *runInfoStruct) runSingleStmt() {
 		if runInfo.err != nil {
 			return
 		}
-		runInfo.err = newStringError(stmt, fmt.Sprint(runInfo.rv.Interface()))
+		// a throw always raises, also when the thrown value prints as the empty string
+		runInfo.err = &Error{Message: fmt.Sprint(runInfo.rv.Interface()), Pos: stmt.Position()}
 
 	// ModuleStmt
 	case *ast.ModuleStmt:
